@@ -204,7 +204,7 @@ ORDER = ['CONNECT', 'DELETE', 'GET', 'HEAD', 'OPTIONS', 'PATCH', 'POST', 'PUT', 
 
 class RouterSpec:
     def __init__(self, toks):
-        self.name = decB(toks[2]); self.trace = toks[3] == '1'; self.recover = toks[5] == '1'
+        self.name = decB(toks[2]); self.trace = toks[3] == '1'; self.recover = toks[5] != '0'; self.rec_kind = toks[5]
         self.domain = decB(toks[6])
         self.ic = {k: int(v) for k, v in decM(toks[7])}
         self.cors = None
@@ -325,7 +325,7 @@ class World:
                     r.clean(f[1])
             return
         if op == 'group' and obs == 'ok':
-            self.groups[int(toks[1])] = dict(use=[], routers=[], recover=toks[2] == '1', cfg=toks)
+            self.groups[int(toks[1])] = dict(use=[], routers=[], recover=toks[2] != '0', rec_kind=toks[2], cfg=toks)
             return
         if op == 'group-add' and obs == 'ok':
             g = self.groups.get(int(toks[1])); r = self.routers.get(int(toks[2]))
@@ -1125,6 +1125,8 @@ def judge_c15(ops, impl):
                 bad.append((i, 'rejected but left path=%r params=%r' % (gp, gps)))
     return bad
 
+STATUS_TEXT = {200: 'OK', 400: 'Bad Request', 404: 'Not Found', 418: "I'm a teapot", 500: 'Internal Server Error', 503: 'Service Unavailable'}
+
 def judge_c16(ops, impl):
     bad = []
     pc = ({}, {}, {})
@@ -1150,9 +1152,9 @@ def judge_c16(ops, impl):
             else:
                 v = pc[2].get(codes.get(base, -1))
         # which recover option covers this call?
-        rec = None
+        rec = None; kind = '0'
         if base == 'groupNotFound' and f['router'] == '%_':
-            g = w.groups.get(int(toks[1])); rec = g['recover'] if g else None
+            g = w.groups.get(int(toks[1])); rec = g['recover'] if g else None; kind = g['rec_kind'] if g else '0'
         else:
             cand = []
             if toks[0] == 'serve':
@@ -1162,7 +1164,7 @@ def judge_c16(ops, impl):
                 if g:
                     cand = [w.routers[rid] for rid in g['routers'] if rid in w.routers and w.routers[rid].name == decB(f['router'])]
             if cand and cand[0] is not None:
-                rec = cand[0].recover
+                rec = cand[0].recover; kind = cand[0].rec_kind
         if rec is None:
             continue
         tail = obs.split(' => ', 1)[1]
@@ -1170,8 +1172,19 @@ def judge_c16(ops, impl):
             if not tail.startswith('normal'):
                 bad.append((i, 'no panic injected, outcome %s' % tail[:40]))
         elif rec:
-            if not tail.startswith('recovered:v%d ' % v):
+            # WithStatusRecovery hands the value to nothing observable: the harness prints "?"
+            if not (tail.startswith('recovered:v%d ' % v) or (kind[0] == 's' and tail.startswith('recovered:? '))):
                 bad.append((i, 'recovery configured, panic v%d, outcome %s' % (v, tail[:40])))
+            elif len(kind) > 1:
+                # the bundled options answer with http.Error(w, http.StatusText(status), status)
+                code = int(kind[1:]); text = STATUS_TEXT.get(code, '')
+                m = re.search(r' status=(\S+) body=(\d+) live=(\S+) snap=(\S+)$', tail)
+                snap = dict(kv.split('=', 1) for kv in m.group(4).split(',')) if m and m.group(4) not in ('-', '%-') else {}
+                head = f.get('head') == '1'
+                want_body = 0 if head else len(text) + 1
+                if not m or m.group(1) != str(code) or int(m.group(2)) != want_body or \
+                        decB(snap.get('Content-Type', '%_')) != b'text/plain; charset=utf-8' or decB(snap.get('X-Content-Type-Options', '%_')) != b'nosniff':
+                    bad.append((i, 'bundled recovery option %s: answer is not http.Error(StatusText(%d), %d): %s' % (kind, code, code, tail[:160])))
         else:
             if tail != 'panicked:v%d' % v:
                 bad.append((i, 'no recovery configured, panic v%d, outcome %s' % (v, tail[:40])))
